@@ -138,6 +138,7 @@ pub fn cfg_strategy(p: Profile, thorough: bool) -> BoxedStrategy<Cfg> {
             Profile::Vis => {
                 c.clients = c.clients.max(2);
                 c.big = b1;
+                c.refs = b2;
                 prop_oneof![Just(1u8), Just(2u8)].prop_map(move |v| Cfg { vis: v, ..c.clone() }).boxed()
             }
             Profile::Faults => {
